@@ -58,6 +58,7 @@ pub struct Judged {
 
 /// shared by C01/C11/C13: judge e vs s (end to end) and every rewrite step under the same assignments
 pub fn judge_simplification(
+    prop: &str,
     sh: &mut Shard,
     ctx: &mut Context,
     rng: &mut Rng,
@@ -69,41 +70,9 @@ pub fn judge_simplification(
     nsamples: usize,
 ) -> Option<Judged> {
     // root causes first: a rewrite step that produces a literal whose words are not canonical
-    for ev in events {
-        let Some(newe) = ev.result else { continue };
-        if let patronus::expr::Expr::BVLiteral(v) = &ctx[newe] {
-            let val = v.get(ctx);
-            if !r2::is_canonical(&val) {
-                use baa::BitVecOps;
-                let op = r2::op_name(&ctx[ev.expr]);
-                let disc = match (&ctx[ev.expr], ev.children.as_slice()) {
-                    (patronus::expr::Expr::BVShiftLeft(..), [a, b]) => {
-                        let amt = r2::eval(ctx, &Env::default(), *b).ok().and_then(|x| x.bv().to_u64());
-                        let w = node_w(ctx, *a) as u64;
-                        match amt {
-                            Some(n) if n < w && n >= 64 && n % 64 == 0 => "amount-multiple-of-64",
-                            _ => "other",
-                        }
-                    }
-                    _ => "-",
-                };
-                let sig = format!("C01|noncanonical-literal|op={op}|{disc}");
-                let kids: Vec<String> = ev.children.iter().map(|c| r2::render(ctx, *c)).collect();
-                sh.violation(
-                    sig,
-                    format!(
-                        "rewrite step folds {}({}) into a literal of width {} whose words {:x?} carry bits above the width\n(while simplifying {} via {what})",
-                        op,
-                        kids.join(" ; "),
-                        val.width(),
-                        val.words(),
-                        util::trunc(&r2::render(ctx, e), 600)
-                    ),
-                    json!({"expr": r2::render(ctx, e)}),
-                );
-                return None;
-            }
-        }
+    if let Some((sig, detail)) = noncanonical_step(prop, ctx, events, e, what) {
+        sh.violation(sig, detail, json!({"expr": r2::render(ctx, e)}));
+        return None;
     }
     // types
     let te = match r2::deep_type_check(ctx, e) {
@@ -115,13 +84,13 @@ pub fn judge_simplification(
     };
     match r2::deep_type_check(ctx, s) {
         Err(m) => {
-            let sig = format!("C01|illtyped-result|{what}|{}", r2::op_name(&ctx[e]));
+            let sig = format!("{prop}|illtyped-result|{what}|{}", r2::op_name(&ctx[e]));
             sh.violation(sig, format!("input: {}\nresult: {}\nresult fails the deep type check: {m}", r2::render(ctx, e), r2::render(ctx, s)), json!({}));
             return None;
         }
         Ok(ts) => {
             if ts != te {
-                let sig = format!("C01|type-changed|{what}|{}", r2::op_name(&ctx[e]));
+                let sig = format!("{prop}|type-changed|{what}|{}", r2::op_name(&ctx[e]));
                 sh.violation(sig, format!("input: {} : {}\nresult: {} : {}", r2::render(ctx, e), type_str(te), r2::render(ctx, s), type_str(ts)), json!({}));
                 return None;
             }
@@ -170,7 +139,7 @@ pub fn judge_simplification(
                 let rs = rule_signature(ctx, ev);
                 let w = crate::checks::c06::sig_width_class(node_w(ctx, ev.expr));
                 let res_shape = r2::shape(ctx, newe);
-                let sig = format!("C01|step|{}=>{}|w={w}", r2::op_name(&ctx[ev.expr]), res_shape);
+                let sig = format!("{prop}|step|{}=>{}|w={w}", r2::op_name(&ctx[ev.expr]), res_shape);
                 let _ = &rs;
                 let kids: Vec<String> = ev.children.iter().map(|c| r2::render(ctx, *c)).collect();
                 sh.violation(
@@ -197,7 +166,7 @@ pub fn judge_simplification(
             (Ok(a), Ok(b)) => {
                 if a != b {
                     if !reported_step {
-                        let sig = format!("C01|value|{what}|root={}|w={}", r2::op_name(&ctx[e]), crate::checks::c06::sig_width_class(node_w(ctx, e)));
+                        let sig = format!("{prop}|value|{what}|root={}|w={}", r2::op_name(&ctx[e]), crate::checks::c06::sig_width_class(node_w(ctx, e)));
                         sh.violation(
                             sig,
                             format!(
@@ -216,7 +185,7 @@ pub fn judge_simplification(
             }
             (Err(m), _) | (_, Err(m)) => {
                 // a symbol in the result that is not in the input
-                let sig = format!("C01|new-symbol|{what}");
+                let sig = format!("{prop}|new-symbol|{what}");
                 sh.violation(sig, format!("input: {}\nresult: {}\n{}", r2::render(ctx, e), r2::render(ctx, s), m.0), json!({}));
                 return None;
             }
@@ -226,6 +195,44 @@ pub fn judge_simplification(
         }
     }
     Some(Judged { envs: envs.len(), exhaustive })
+}
+
+/// first rewrite step (if any) that folds into a literal whose words carry bits above the width
+pub fn noncanonical_step(prop: &str, ctx: &Context, events: &[StepEvent], e: ExprRef, what: &str) -> Option<(String, String)> {
+    use baa::BitVecOps;
+    for ev in events {
+        let Some(newe) = ev.result else { continue };
+        if let patronus::expr::Expr::BVLiteral(v) = &ctx[newe] {
+            let val = v.get(ctx);
+            if !r2::is_canonical(&val) {
+                let op = r2::op_name(&ctx[ev.expr]);
+                let disc = match (&ctx[ev.expr], ev.children.as_slice()) {
+                    (patronus::expr::Expr::BVShiftLeft(..), [a, b]) => {
+                        let amt = r2::eval(ctx, &Env::default(), *b).ok().and_then(|x| x.bv().to_u64());
+                        let w = node_w(ctx, *a) as u64;
+                        match amt {
+                            Some(n) if n < w && n >= 64 && n % 64 == 0 => "amount-multiple-of-64",
+                            _ => "other",
+                        }
+                    }
+                    _ => "-",
+                };
+                let kids: Vec<String> = ev.children.iter().map(|c| r2::render(ctx, *c)).collect();
+                return Some((
+                    format!("{prop}|noncanonical-literal|op={op}|{disc}"),
+                    format!(
+                        "rewrite step folds {}({}) into a literal of width {} whose words {:x?} carry bits above the width\n(while simplifying {} via {what})",
+                        op,
+                        kids.join(" ; "),
+                        val.width(),
+                        val.words(),
+                        util::trunc(&r2::render(ctx, e), 600)
+                    ),
+                ));
+            }
+        }
+    }
+    None
 }
 
 pub fn node_w(ctx: &Context, e: ExprRef) -> u32 {
@@ -276,6 +283,8 @@ impl C01 {
                     sh.violation("C01|no-termination|step-limit", format!("more than 200000 rewrite steps for {}", r2::render(ctx, e)), json!({}));
                 } else if p.in_harness() {
                     sh.inconclusive(format!("harness panic {} {}", p.loc(), p.msg));
+                } else if let Some((sig, detail)) = noncanonical_step("C01", ctx, &events, e, what) {
+                    sh.violation(sig, format!("{detail}\nlater the simplifier panicked at {}: {}", p.loc(), util::trunc(&p.msg, 200)), json!({"expr": r2::render(ctx, e)}));
                 } else {
                     // attribute to the operator being rewritten when the panic happened
                     let last = events.last().map(|ev| r2::op_name(&ctx[ev.expr])).unwrap_or("?");
@@ -297,7 +306,7 @@ impl C01 {
         if sh.want_sample() && s != e {
             sh.sample(json!({"input": util::trunc(&r2::render(ctx, e), 300), "simplified": util::trunc(&r2::render(ctx, s), 300), "family": fam, "rewrite_steps": events.len(), "entry": what}));
         }
-        if let Some(j) = judge_simplification(sh, ctx, rng, e, s, &events, what, max_bits, nsamples) {
+        if let Some(j) = judge_simplification("C01", sh, ctx, rng, e, s, &events, what, max_bits, nsamples) {
             if j.exhaustive {
                 sh.count("judged_exhaustively", 1);
             }
